@@ -7,7 +7,7 @@ import { fileURLToPath, pathToFileURL } from 'node:url'
 import { stripTypeScriptTypes } from 'node:module'
 import path from 'node:path'
 
-const SRC_ROOT = path.join(process.env.GE_REPO_DIR || '/repo', 'glass-easel', 'src')
+const SRC_ROOT = path.join(process.env.GE_RT_ROOT || process.env.GE_REPO_DIR || '/repo', 'glass-easel', 'src')
 
 function resolveTs(base, specifier) {
   const p = path.resolve(base, specifier)
